@@ -544,7 +544,19 @@ func (y *c01Sys) answerPending(letter string, all bool) int {
 //	R:... / X:...            answer every pending outbound query with this hostile reply
 //	B:<corpus>:<from>:<to>   deliver the byte-neighbourhood slice of corpus message
 //	T:<seconds>              let virtual time pass
+// sync-level tier (schedule explorer), present only in overlay builds (build tag verife2)
+var (
+	c01SyncTier   func(t *testing.T, w *explore.Worker, idx *int)
+	c01SyncReplay func(t *testing.T, c explore.Case) explore.Result
+)
+
 func runC01(t *testing.T, c explore.Case) (res explore.Result) {
+	if strings.HasPrefix(c.Unit, "sync;") {
+		if c01SyncReplay == nil {
+			return explore.Result{Viol: "HARNESS: sync tier not built"}
+		}
+		return c01SyncReplay(t, c)
+	}
 	var cfgName, startName string
 	for _, kv := range strings.Split(c.Unit, ";") {
 		if v, ok := strings.CutPrefix(kv, "cfg="); ok {
@@ -671,6 +683,9 @@ func TestC01(t *testing.T) {
 	defer w.Finish()
 	w.SetRule("(a) every letter of a structured hostile alphabet (9 methods x {no a, a of wrong type, every field removed or retyped, field length sweeps, port/want/seq/v/salt sweeps, t and y variants}, unsolicited and malformed responses/errors, non-KRPC bytes: empty, truncated, oversize, 10000 keys, 30000-deep nesting, 60000-digit integer, unsorted/duplicate keys) in 6 configurations x 4 start states (empty, populated table, stored items and peers, queries and an announce in flight); (b) all ordered pairs of the letters that produced output or changed the table at depth 1; (c) the complete one-edit byte neighbourhood of a 42-datagram corpus; (d) every one of 10 own operations (ping, find_node, get_peers, get, put, announce, bootstrap, getput.Get mutable/immutable, getput.Put) answered with every single and pairwise combination of benign/malformed reply fields and malformed envelopes; after each history: virtual 40 s, then a fresh ping must be answered (or registered, when passive) and the API must return; a dead or wedged worker is a violation attributed through the write-ahead journal")
 	idx := 0
+	if c01SyncTier != nil {
+		c01SyncTier(t, w, &idx)
+	}
 	exec := func(unit string, h []string) explore.Result {
 		c := explore.Case{Prop: "C01", Unit: unit, H: h}
 		w.Journal(c)
